@@ -232,7 +232,8 @@ func (c *ClientConn) Do(r ReqSpec) Exchange {
 	resp := c.H2.Response(sid)
 	ex := Exchange{Header: fieldsToHeader(resp.Header), Body: resp.Body, Trailer: fieldsToHeader(resp.Trailer)}
 	fmt.Sscanf(resp.Status, "%d", &ex.Status)
-	if resp.Reset {
+	// (a reset behind a complete response - NO_ERROR: "stop sending the request body", RFC 9113 8.1, or STREAM_CLOSED for body frames that were under way - does not make the exchange fail)
+	if resp.Reset && !resp.Ended {
 		ex.Err = fmt.Sprintf("stream reset: %v", resp.ResetCode)
 	} else if !resp.Ended {
 		ex.Err = "response not complete"
